@@ -87,7 +87,7 @@ PrefixVerdict(o) ==
 
 ObsVerdicts(L, o) ==
   IF Has(o, "machinery") THEN <<V("ANY", "machinery", o.machinery)>>
-  ELSE IF Has(o, "compile") THEN <<V("ANY", "reject", ExcKey("compile", o.compile))>>
+  ELSE IF Has(o, "compile") THEN <<V("ANY", "skip", "not compilable: " \o ExcKey("compile", o.compile))>>   \* outside "every specification the compiler accepts"
   ELSE LET env == L.env
            T == env.types[L.top]
            v == L.vals[o.vi]
